@@ -4,17 +4,17 @@ From Verif Require Import Base.Prelude Model.C36.
 From Verif Require Import Proofs.C36_bloom Proofs.C36_idset Proofs.C36_rhh Proofs.C36_radix.
 
 (** ** rhh: the robin-hood hash map refines the abstract association map — for ALL histories of
-    Put / Get / Grow(any size) / Reset, any initial capacity, any load factor <= 100, any hash
-    function that never returns 0 (rhh.HashKey), including every growth and every displacement
-    chain; keys are non-empty (the empty key is the refuted case below) and the history has
-    fewer than 2^63 operations (beyond a capacity of 2^63 the model's pow2 stops doubling; the
-    real pow2 panics beyond 2^62).
+    Put / Get / Grow(any size) / Reset, ANY keys (the empty key included, since insert() only
+    matches occupied slots), any initial capacity, any load factor <= 100, any hash function
+    that never returns 0 (rhh.HashKey), including every growth and every displacement chain;
+    the history has fewer than 2^63 operations (beyond a capacity of 2^63 the model's pow2
+    stops doubling; the real pow2 panics beyond 2^62).
     [amap_oracle [] ops obs = true]: every value a Get returned during the history and Len()
     after every operation are those of the abstract map; at the end every Get is the abstract
     lookup and Len is the abstract size. *)
 Theorem C36_rhh_refines_map :
   forall hashf c lf ops m obs,
-    hash_ok hashf -> (lf <= 100)%N -> put_keys_nonempty ops -> ops_bounded ops ->
+    hash_ok hashf -> (lf <= 100)%N -> ops_bounded ops ->
     h_run hashf (h_new c lf) ops = Some (m, obs) ->
     amap_oracle [] ops obs = true
     /\ (forall k, h_get hashf m k = match amap_get k (amap_final ops) with Some v => v | None => 0%N end)
@@ -26,7 +26,7 @@ Print Assumptions C36_rhh_refines_map.
     unbounded loops always suffices *)
 Theorem C36_rhh_operations_terminate :
   forall hashf c lf ops,
-    hash_ok hashf -> (lf <= 100)%N -> put_keys_nonempty ops -> ops_bounded ops ->
+    hash_ok hashf -> (lf <= 100)%N -> ops_bounded ops ->
     exists m obs, h_run hashf (h_new c lf) ops = Some (m, obs).
 Proof. exact rhh_total. Qed.
 Print Assumptions C36_rhh_operations_terminate.
@@ -34,7 +34,7 @@ Print Assumptions C36_rhh_operations_terminate.
 (** Keys() is the sorted domain of the abstract map (values non-nil: Keys skips nil values) *)
 Theorem C36_rhh_keys_sorted_domain :
   forall hashf c lf ops m obs,
-    hash_ok hashf -> (lf <= 100)%N -> put_keys_nonempty ops -> ops_bounded ops ->
+    hash_ok hashf -> (lf <= 100)%N -> ops_bounded ops ->
     (forall k v, In (HPut k v) ops -> v <> 0%N) ->
     h_run hashf (h_new c lf) ops = Some (m, obs) ->
     h_keys m = bytes_sort (map fst (amap_final ops)).
@@ -64,21 +64,18 @@ Print Assumptions C36_radix_refines_sorted_map.
 
 (** every returned value — Insert's (value, inserted), Get's (value, found), DeletePrefix's count
     (= number of keys with the prefix), Len after each op, Minimum/Maximum = first/last binding —
-    equals the abstract sorted map's answer, for every history in which no Minimum/Maximum
-    follows a DeletePrefix ([minmax_safe]) … *)
-Theorem C36_radix_observations_partial :
-  forall ops t obs, r_run r_new ops = (t, obs) ->
-    minmax_safe false ops = true -> smap_oracle [] ops obs = true.
+    equals the abstract sorted map's answer, for ALL histories (DeletePrefix unlinks the node it
+    empties, so no dead node exists for Minimum/Maximum to walk into). *)
+Theorem C36_radix_observations :
+  forall ops t obs, r_run r_new ops = (t, obs) -> smap_oracle [] ops obs = true.
 Proof. exact radix_obs_oracle. Qed.
-Print Assumptions C36_radix_observations_partial.
+Print Assumptions C36_radix_observations.
 
-(** … and for ARBITRARY histories all observations other than those of Minimum/Maximum are the
-    abstract answers (the Min/Max observations replaced by the abstract ones pass the oracle). *)
-Theorem C36_radix_observations_except_minmax :
-  forall ops t obs, r_run r_new ops = (t, obs) ->
-    length obs = length ops /\ smap_oracle [] ops (patch_minmax [] ops obs) = true.
-Proof. exact radix_obs_oracle_nominmax. Qed.
-Print Assumptions C36_radix_observations_except_minmax.
+(** the structural reason: every non-root node is a leaf or has at least two edges, always *)
+Theorem C36_radix_no_dead_node :
+  forall ops t obs, r_run r_new ops = (t, obs) -> nde (r_edges (r_root t)).
+Proof. exact radix_no_dead_node. Qed.
+Print Assumptions C36_radix_no_dead_node.
 
 (** ** bloom filter: never reports a present key as absent — for ALL histories of
     Insert / Contains / Merge (compatible or rejected) / Clone, all m, all k, any hash. *)
@@ -145,39 +142,30 @@ Theorem C36_idset_uint64_ids_refuted :
 Proof. exists [SAdd 0 4294967301%N; SContains 0 5%N]. vm_compute. discriminate. Qed.
 Print Assumptions C36_idset_uint64_ids_refuted.
 
-(** ** rhh: the empty key.  [insert] computes [match] from the keys alone, also on an EMPTY
-    slot (whose key is empty), so a Put of the empty key into an empty slot is reported as an
-    overwrite and [n] is decremented: Len() = 0 with one key stored.  Confirmed on real code. *)
-Theorem C36_rhh_empty_key_len_refuted :
-  exists ops m obs,
-    h_run (fun _ => 1%N) (h_new 4 90) ops = Some (m, obs)
-    /\ h_get (fun _ => 1%N) m [] = 5%N
-    /\ h_n m <> Z.of_nat (length (amap_final ops)).
-Proof.
-  exists [HPut [] 5%N].
-  exists {| h_tbl := [empty_slot; {| s_hash := 1; s_key := []; s_val := 5 |}; empty_slot; empty_slot];
-            h_n := 0; h_cap := 4; h_lf := 90 |}.
-  exists [(0%N, 0%Z, 4%N)]. vm_compute. repeat split; discriminate.
-Qed.
-Print Assumptions C36_rhh_empty_key_len_refuted.
+(** Former findings, fixed in influxdb (findings.d/C36.json): the witnesses of the two refuted
+    statements are now positive examples.  Put of the empty key is counted; with capacity 2 and
+    load factor 100 the third Put grows the table instead of spinning; Minimum after a
+    DeletePrefix of the first sibling finds the remaining key. *)
+Example C36_rhh_empty_key_counted :
+  match h_run (fun _ => 1%N) (h_new 4 90) [HPut [] 5%N] with
+  | Some (m, obs) => h_get (fun _ => 1%N) m [] = 5%N /\ h_n m = 1%Z
+  | None => False
+  end.
+Proof. vm_compute. split; reflexivity. Qed.
 
-(** … and because the miscounted [n] is what triggers growth, a table can fill up completely;
-    the next insert of a new key then never terminates (model: out of fuel for every fuel —
-    shown here for the model's fuel; the real map spins forever, confirmed). Load factor 100. *)
-Theorem C36_rhh_empty_key_insert_spins_refuted :
+Example C36_rhh_empty_key_full_table_grows :
   let hf := fun k : bytes => match k with [] => 2%N | [97%N] => 3%N | _ => 4%N end in
-  h_run hf (h_new 2 100) [HPut [] 5%N; HPut [97%N] 6%N; HPut [98%N] 7%N] = None.
-Proof. vm_compute. reflexivity. Qed.
-Print Assumptions C36_rhh_empty_key_insert_spins_refuted.
+  match h_run hf (h_new 2 100) [HPut [] 5%N; HPut [97%N] 6%N; HPut [98%N] 7%N] with
+  | Some (m, obs) => h_n m = 3%Z /\ h_cap m = 4%N /\ h_get hf m [98%N] = 7%N /\ h_get hf m [] = 5%N
+  | None => False
+  end.
+Proof. vm_compute. repeat split; reflexivity. Qed.
 
-(** FULL statement wanted by the property (all observations incl. Minimum/Maximum, all
-    histories) REFUTED: DeletePrefix leaves an emptied node linked to its parent; Minimum / Maximum
-    walk into it and answer "not found" on a non-empty tree.  Confirmed on the real code. *)
-Theorem C36_radix_minimum_after_deleteprefix_refuted :
-  exists ops, smap_oracle [] ops (snd (r_run r_new ops)) = false
-              /\ walk (r_root (fst (r_run r_new ops))) = [([98%N], 2%Z)].
-Proof. exists [RInsert [97%N] 1%Z; RInsert [98%N] 2%Z; RDelPrefix [97%N]; RMin]. vm_compute. split; reflexivity. Qed.
-Print Assumptions C36_radix_minimum_after_deleteprefix_refuted.
+Example C36_radix_minimum_after_deleteprefix_ok :
+  let ops := [RInsert [97%N] 1%Z; RInsert [98%N] 2%Z; RDelPrefix [97%N]; RMin] in
+  smap_oracle [] ops (snd (r_run r_new ops)) = true
+  /\ last (snd (r_run r_new ops)) (0%Z, false, [], 0%Z) = (2%Z, true, [98%N], 1%Z).
+Proof. vm_compute. split; reflexivity. Qed.
 
 (** Non-vacuity: a history with collisions and growth in the rhh model, a radix history with a
     split, a bloom history. *)
